@@ -12,7 +12,20 @@ import re
 # path normalisation
 
 
+PRELUDE = {
+    'std::prelude::v1::None': 'std::option::Option::None',
+    'std::prelude::v1::Some': 'std::option::Option::Some',
+    'std::prelude::v1::Ok': 'std::result::Result::Ok',
+    'std::prelude::v1::Err': 'std::result::Result::Err',
+}
+
+
 def strip_generics(p):
+    r = _strip_generics(p)
+    return PRELUDE.get(r, r)
+
+
+def _strip_generics(p):
     """`a::B::<'t, X<Y>>::f` -> `a::B::f`; `Vec<T>` -> `Vec`.  Keeps `<T as Trait>::m` qualified-self form
     but strips generics inside it."""
     if p is None:
